@@ -310,6 +310,15 @@ fn occurs(x: &str, e: &Expr) -> bool {
     matches!(e, Expr::Var(v) if v == x) || children(e).iter().any(|(c, _)| occurs(x, c))
 }
 
+/// does `x` occur inside a lambda of `e`?
+fn under_lambda(x: &str, e: &Expr, inside: bool) -> bool {
+    if matches!(e, Expr::Var(v) if v == x) {
+        return inside;
+    }
+    let inside2 = inside || matches!(e, Expr::Lam(..));
+    children(e).iter().any(|(c, _)| under_lambda(x, c, inside2))
+}
+
 /// is `x` evaluated on every path through `e`?
 fn always_evaluated(x: &str, e: &Expr) -> bool {
     if matches!(e, Expr::Var(v) if v == x) {
@@ -346,6 +355,7 @@ fn expect_use(body: &Expr) -> &'static str {
         None => ":destructuring",
         Some(x) if !occurs(x, cont) => ":bound-variable-unused",
         Some(x) if always_evaluated(x, cont) => ":bound-variable-used-on-every-path",
+        Some(x) if under_lambda(x, cont, false) => ":bound-variable-captured-by-a-closure",
         Some(_) => ":bound-variable-used-on-some-paths-only",
     }
 }
